@@ -1,7 +1,7 @@
 (* C13 — mDNS replies contain exactly the matching records.
    Store.v transliterates ResourceRecordManager (with a model of radix_trie 0.2.1 restricted to the calls used) and build_reply.
    Property theorems only. *)
-Require Import SD.Base SD.Codes SD.Name SD.RData SD.Packet SD.Header SD.Store SD.StoreProofs.
+Require Import SD.Base SD.Codes SD.Name SD.RData SD.Packet SD.Header SD.Store SD.StoreProofs SD.HistoryProofs.
 
 (* the heart: with length-prefixed label keys, one key is a byte prefix of another iff the names are in the label-suffix
    relation (false for the pinned concatenated-text key: officeprinter.local vs printer.office.local, finding F17) *)
@@ -37,6 +37,17 @@ Theorem C13_complete : forall st q now a k m, In (k, m) st -> In (a, Auth) m -> 
   In a (answers_for st q now).
 Proof. exact answers_complete. Qed.
 Print Assumptions C13_complete.
+
+(* below the question name: a matching record owned by a label-wise subdomain is included whenever the trie has a node at
+   the question name's key (an inserted key or a branch point; radix_trie's subtrie() returns nothing otherwise - the
+   property asks for completeness at the question name only, where such a node always exists) *)
+Theorem C13_complete_subdomain : forall st q now a k m pre, In (k, m) st -> In (a, Auth) m -> k = get_key (rname a) ->
+  rname a = pre ++ qname q -> short_labels (rname a) -> short_labels (qname q) ->
+  node_exists st (get_key (qname q)) = true ->
+  match_qtype (type_of_rdata (rdata_of a)) (q_type q) = true -> match_qclass (rclass a) (q_class q) = true ->
+  In a (answers_for st q now).
+Proof. exact answers_complete_subdomain. Qed.
+Print Assumptions C13_complete_subdomain.
 
 (* no reply is produced exactly when nothing matches *)
 Theorem C13_none : forall st p now, build_reply st p now = None <-> (forall q, In q (qs p) -> answers_for st q now = []).
